@@ -142,7 +142,7 @@ def main():
     ok_without, txt_without = run_demo()
     log["demo_without_change"] = {"passes": ok_without, "output": txt_without}
     sh("git checkout -q -- . ; git clean -fdq -e target -e target-hooks", cwd=wt)
-    sh("rm -rf %s/.build/*-%s" % (VERIF, tag))
+    sh("rm -rf %s/.build/*-%s %s/.build/*-%s-*" % (VERIF, tag, VERIF, tag))
     sh("rm -f %s/replays/*.json" % VERIF)
 
     confirmed = log.get("compiles") and log.get("compiles_with_hooks") and log.get("suite_passes_with_change") and ok_with is False and ok_without is True
